@@ -706,7 +706,12 @@ def rule_loops(ctx):
             if kind:
                 r.instance(function=nid, header='bb%d' % h, driver=kind, detail=detail)
                 continue
-            ent = PROGRESS_TABLE.get(nid)
+            from .roles import named as _named
+            ptab = dict(PROGRESS_TABLE)
+            for k_, role_ in (('unsync.admit', 'unsync::cache::Cache::admit'), ('sync.admit', 'sync::base_cache::Inner::admit')):
+                if role_ in ptab:
+                    ptab[_named(ctx, k_)] = ptab[role_]
+            ent = ptab.get(nid)
             if not ent:
                 r.instance(function=nid, header='bb%d' % h, driver='UNCLASSIFIED')
                 r.violate(nid, 'unbounded-loop', 'loop', 'loop is neither iterator- nor counter-driven and has no listed '
